@@ -11,3 +11,6 @@ CONSTANTS
  MaxFinish = 0
  Defects = {}
  MaxFail = 0
+ AllocAny = FALSE
+ PortPool = {}
+ Busy = {}
